@@ -33,6 +33,7 @@ type Engine struct {
 	prelude         string
 	requireVariants bool
 	sequential      bool // monitors do not forget protected state at Lock (single-goroutine histories)
+	noContentIDExt  bool // see PropertyDef.NoContentIDExt
 	onlySafe        bool // thin mode: only clauses labelled safe_* are checked and assumed
 	inlineExternal  map[string]bool
 	effectsMemo     map[*ssa.Function]*effects
@@ -853,6 +854,7 @@ func (fr *Frame) envFor(st *State, old *State, extra map[string]CV) *Env {
 	for k, v := range extra {
 		env.vars[k] = v
 	}
+	env.prev = fr.innermostHead()
 	return env
 }
 
@@ -1150,7 +1152,10 @@ func (e *Engine) verifyFunction(key string, extra *FuncSpec) (res *FuncResult) {
 					continue
 				}
 				t := mkEnv(false).eval(c.E).asBool()
-				fx.oblige("ensures", fmt.Sprintf("%s/ensures/%s", path, clauseName(c, i)), rp.st, t, fn.Pos(), c.Src)
+				o := fx.oblige("ensures", fmt.Sprintf("%s/ensures/%s", path, clauseName(c, i)), rp.st, t, fn.Pos(), c.Src)
+				if len(c.Using) > 0 {
+					o.Using = c.Using
+				}
 			}
 		}
 	}
@@ -1288,7 +1293,7 @@ func (fr *Frame) frameLocs(spec *FuncSpec, pre *State, lets map[string]CV) []fra
 					if n == x.Name {
 						if fx.eng.contracts.Embedded[embeddedKey(sh, i)] {
 							fsh := sh.fields[i]
-							addObj(fsh, app("+", embBase, app("*", base.v.ts[0], "64"), num(int64(i))), 0, fsh.ncomp())
+							addObj(fsh, fx.embAddr(base.v.ts[0], i), 0, fsh.ncomp())
 							continue
 						}
 						lo, hi := sh.fieldRange(i)
@@ -1356,7 +1361,7 @@ func (fx *FnCtx) frameCond(h string, final T, curAlloc T, asAssumption bool) (T,
 	}
 	if withEmb {
 		existed = or(existed,
-			and(le(embBase, r), le("1", app("div", app("-", r, embBase), "64")), le(app("div", app("-", r, embBase), "64"), fi.preAlloc)))
+			and(le(embBase, r), le("1", fx.embOwner(r)), le(fx.embOwner(r), fi.preAlloc)))
 	}
 	var cond T
 	elemWise := strings.HasPrefix(h, "E|") && len(wins) > 0
